@@ -132,7 +132,8 @@ def run(chk):
         if r["exit"] in ("panic", "timeout") or r1["exit"] in ("panic", "timeout"):
             continue
         if r["exit"] != "ok" or r1["exit"] != "ok":
-            raise ToolError(f"typeshare failed on a C14 workspace ({lang}, {c}): {r['stderr'][-300:]} {r1['stderr'][-200:]}")
+            chk.refused(f"{lang}/{c['form']}", f"{lang}: typeshare failed on workspace {c}: {r['stderr'][-200:].strip()} {r1['stderr'][-100:].strip()}", {"case": c, "lang": lang})
+            continue
         exp = cc["files"][lang]
         tname = pre + ("TargetRenamed" if c["renamed"] else "Target")
         fobs, unreadable = [], False
